@@ -25,6 +25,8 @@ from fractions import Fraction
 
 import z3
 
+sys.set_int_max_str_digits(0)      # solver models may carry rationals with thousands of digits
+
 # ------------------------------------------------------------------------------------------------
 # control-flow exceptions (BaseException so that `except Exception` in the code under test cannot eat them)
 
@@ -408,11 +410,21 @@ class _ArithMixin:
         raise ProxyLeak("ceil() of a proxy")
 
 
+def _unmodelled(opname):
+    def op(self, *a, **k):
+        raise ProxyLeak(f"operator {opname} on a proxy is not modelled (its raw value would be used silently)")
+    return op
+
+
 class SymReal(_ArithMixin, float):
     def __new__(cls, t):
         o = float.__new__(cls, float('nan'))
         o.t = t
         return o
+
+    for _n in ("__floordiv__", "__rfloordiv__", "__mod__", "__rmod__", "__divmod__", "__rdivmod__", "is_integer", "as_integer_ratio", "hex"):
+        locals()[_n] = _unmodelled(_n)
+    del _n
 
     def __int__(self):
         raise ProxyLeak("int() of a real proxy through the builtin")
@@ -423,6 +435,11 @@ class SymInt(_ArithMixin, int):
         o = int.__new__(cls, 0)
         o.t = t
         return o
+
+    for _n in ("__lshift__", "__rlshift__", "__rshift__", "__rrshift__", "__and__", "__rand__", "__or__", "__ror__", "__xor__", "__rxor__",
+               "__invert__", "__divmod__", "__rdivmod__", "__rfloordiv__", "__rmod__", "bit_length", "to_bytes"):
+        locals()[_n] = _unmodelled(_n)
+    del _n
 
     def __int__(self):
         raise ProxyLeak("int() of an int proxy through the builtin (module not shimmed)")
@@ -618,7 +635,7 @@ def seq(a, b, scale=None):
         return SymBool(z3.simplify(ta == tb))
     if isinstance(a, (int, Fraction)) and isinstance(b, (int, Fraction)):
         return a == b
-    s = scale if scale is not None else max(abs(a), abs(b), 1e-300)
+    s = scale if scale is not None else max(abs(a), abs(b), 1e-3)      # absolute floor: models have O(1) coordinates
     return abs(a - b) <= CONC_RTOL * s
 
 
@@ -1135,9 +1152,10 @@ _MISSING = object()
 
 class Explorer:
     def __init__(self, program, name=None, budget_s=None, max_paths=None, vc_timeout_ms=VC_TIMEOUT_MS, shard=None,
-                 exact_feas_ms=300):
+                 exact_feas_ms=300, crosscheck_paths=2):
         self.program = program
         self.exact_feas_ms = exact_feas_ms
+        self.crosscheck_paths = crosscheck_paths
         self.shard = shard          # (j, m, k): this explorer owns the paths whose first k decisions hash to j mod m
         self.report = Report(name or getattr(program, "__name__", "contract"))
         self.stack = []
@@ -1158,6 +1176,67 @@ class Explorer:
         for d in decisions[:k]:
             h = (h * 2 + (1 if d else 0)) % 1000003
         return (h * 2654435761 % 4294967296) % m == j
+
+    def crosscheck(self, st):
+        """CPython cross-check of the encoding: for the first few completed paths a model of the exact path condition is
+        run through the same contract program in CONCRETE mode (real code, no proxies).  Every clause that was discharged on
+        that path must also hold concretely; a disagreement is an unsoundness of the encoding (or a contract whose concrete
+        tolerance is too tight) and is reported as a checker error, never as a verdict."""
+        global CUR
+        rep = self.report
+        done = rep.notes.setdefault("crosscheck", dict(paths=0, agreed=0, skipped=0))
+        if done["paths"] + done["skipped"] >= self.crosscheck_paths:
+            return
+        if any(v != "unsat" for (_, v, _, _, _, _) in st.results):
+            return          # only paths on which everything was discharged are compared
+        st.solver.set("timeout", 1500)
+        r = st.solver.check()
+        if r != z3.sat:
+            st.solver.set("timeout", FEAS_TIMEOUT_MS)
+            done["skipped"] += 1
+            return
+        model = st.solver.model()
+        # prefer a model whose numeric inputs are small dyadic rationals (exactly representable doubles: the concrete run then
+        # computes what the real-number semantics computes, except for divisions by non-powers of two)
+        values = None
+        for denom in (8, 64, 1024):
+            eqs, cand = [], {}
+            for name, c in st.inputs.items():
+                v = _model_value(model, c)
+                if isinstance(v, Fraction) or (isinstance(v, int) and not isinstance(v, bool) and z3.is_real(c)):
+                    q = Fraction(round(Fraction(v) * denom), denom)
+                    eqs.append(c == real_val(q))
+                    cand[name] = str(q)
+                else:
+                    eqs.append(c == (z3.BoolVal(v) if isinstance(v, bool) else v))
+                    cand[name] = v
+            if st.solver.check(*eqs) == z3.sat:
+                values = cand
+                break
+        st.solver.set("timeout", FEAS_TIMEOUT_MS)
+        if values is None:
+            done["skipped"] += 1
+            return
+        st.cleanup()
+        saved = CUR
+        try:
+            cs = run_concrete(self.program, values)
+        except (Abort, ProxyLeak):
+            raise
+        except Exception as e:  # noqa: the contract program itself failed on concrete data
+            rep.errors.append(dict(kind="CrossCheck", msg=f"concrete run of a path model raised {type(e).__name__}: {e}", values=values,
+                                   tb=traceback.format_exc(limit=6)))
+            return
+        finally:
+            CUR = saved
+        done["paths"] += 1
+        proved = {name for (name, v, _, _, _, _) in st.results if v == "unsat"}
+        bad = [c for c in cs.failed if c in proved]
+        if bad and not cs.assume_failed:
+            rep.errors.append(dict(kind="CrossCheck", msg="clauses discharged symbolically fail on the real code for a model of the same path: " + ", ".join(bad[:5]),
+                                   values=values))
+        else:
+            done["agreed"] += 1
 
     def commit(self, st):
         rep = self.report
@@ -1205,6 +1284,7 @@ class Explorer:
                     self.commit(st)
                     if st.feasible():
                         rep.paths_completed += 1
+                        self.crosscheck(st)
                 else:
                     rep.paths -= 1
             except NotMine:
